@@ -240,13 +240,13 @@ def epilogue (m : Module) : Module :=
   let spd := if m.spd ≤ 0 ∨ m.spd > (epiSpdMax : Int) then (epiSpdDefault : Int) else m.spd
   let bpm := clampC m.bpm xmpMinBpm epiBpmMax
   let xxi := m.xxi.mapIdx fun i x => if (i : Int) < ins then epilogueIns m.volbase m.insvol x else x
-  let sx := (m.xxs.zip m.xtra).mapIdx fun i (p : Sample × Xtra) =>
-    if (i : Int) < smp then epilogueSmp p.1 p.2 else p
+  let xxs := m.xxs.mapIdx fun i s =>
+    if (i : Int) < smp then (match m.xtra[i]? with | some x => (epilogueSmp s x).1 | none => s) else s
+  let xtra := m.xtra.mapIdx fun i x =>
+    if (i : Int) < smp then (match m.xxs[i]? with | some s => (epilogueSmp s x).2 | none => x) else x
   { m with
     gvl := m.gvol, len := len, pat := pat, ins := ins, smp := smp, chn := chn
-    rst := rst, spd := spd, bpm := bpm, xxi := xxi
-    xxs := sx.map (·.1) ++ m.xxs.drop sx.length
-    xtra := sx.map (·.2) ++ m.xtra.drop sx.length }
+    rst := rst, spd := spd, bpm := bpm, xxi := xxi, xxs := xxs, xtra := xtra }
 
 /-! ## libxmp_prepare_scan -/
 
@@ -257,24 +257,29 @@ def firstValidOrder (m : Module) : Nat :=
 /-- `libxmp_alloc_pattern(mod, num)` on a NULL slot: `calloc` ⇒ rows 0, indices 0. -/
 def emptyPattern (chn : Int) : Pattern := { rows := 0, index := List.replicate (max chn.toNat 1) 0 }
 
+/-- every order whose pattern number is `< pat` but whose slot is NULL gets an
+empty pattern (dead code after the gate, kept because the C has it) -/
+def prepareXxp (m : Module) : Option (List (Option Pattern)) :=
+  m.xxp.map fun ps => ps.mapIdx fun i p =>
+    match p with
+    | some q => some q
+    | none =>
+      if decide ((i : Int) < m.pat) && (List.range m.len.toNat).any (fun o => m.xxo.getD o 0 == i)
+      then some (emptyPattern m.chn) else none
+
+/-- `calloc(1, pat->rows)` for the scan counters of an order: a negative row
+count cannot be allocated (`-XMP_ERROR_SYSTEM`) -/
+def negRows (m : Module) : Bool :=
+  (List.range m.len.toNat).any fun o =>
+    match m.pattern? (m.xxo.getD o 0) with
+    | some p => decide ((m.xxo.getD o 0 : Int) < m.pat) && decide (p.rows < 0)
+    | none => false
+
 def prepareScan (m : Module) : Except Err Module :=
   if m.xxp.isNone || m.xxt.isNone then .error .load
   else if (firstValidOrder m : Int) ≥ m.len then .ok { m with len := 0 }
-  else if (List.range m.len.toNat).any (fun o => match m.pattern? (m.xxo.getD o 0) with
-      | some p => decide ((m.xxo.getD o 0 : Int) < m.pat) && decide (p.rows < 0)
-      | none => false) then
-    /- `calloc(1, pat->rows)` with a negative row count cannot succeed -/
-    .error .system
-  else
-    /- every order whose pattern number is `< pat` but whose slot is NULL gets an
-       empty pattern (dead code after the gate, kept because the C has it) -/
-    let xxp := m.xxp.map fun ps => ps.mapIdx fun i p =>
-      match p with
-      | some q => some q
-      | none =>
-        if decide ((i : Int) < m.pat) && (List.range m.len.toNat).any (fun o => m.xxo.getD o 0 == i)
-        then some (emptyPattern m.chn) else none
-    .ok { m with xxp := xxp }
+  else if negRows m then .error .system
+  else .ok { m with xxp := prepareXxp m }
 
 /-! ## libxmp_scan_sequences -/
 
